@@ -289,6 +289,34 @@ func streamFloorList(tier string) []*StreamSc {
 			}
 		}
 	}
+	// header-only messages (announced length 0) at every position among ordinary ones, every chunking and truncation
+	empties := [][]byte{
+		ttlv.MarshalTTLV(ttlv.Value{Tag: 0x420078, Value: ttlv.Struct{}}),
+		ttlv.MarshalTTLV(ttlv.Value{Tag: 0x420079, Value: ""}),
+		ttlv.MarshalTTLV(ttlv.Value{Tag: 0x42007A, Value: []byte{}}),
+	}
+	plain := ttlv.MarshalTTLV(ttlv.Value{Tag: 0x420078, Value: ttlv.Struct{ttlv.Value{Tag: 0x420069, Value: int32(7)}}})
+	for _, e := range empties {
+		for _, layout := range [][][]byte{{e}, {e, plain}, {plain, e}, {plain, e, plain}, {e, e}} {
+			var frames []string
+			total := 0
+			for _, f := range layout {
+				frames = append(frames, hex.EncodeToString(f))
+				total += len(f)
+			}
+			for _, ch := range []int{simnet.ChunkByte, simnet.ChunkMax} {
+				for _, de := range []bool{false, true} {
+					for t := 0; t <= total; t++ {
+						tr := t
+						if t == total {
+							tr = -1
+						}
+						out = append(out, &StreamSc{Max: 1 << 20, Frames: frames, Chunk: ch, DataEOF: de, Truncate: tr})
+					}
+				}
+			}
+		}
+	}
 	streamFloorOnce.Store(tier, out)
 	return out
 }
